@@ -3,6 +3,7 @@
 # harness name -> build spec
 HARNESSES = {
     'radix_seq': {'san': 'asan'},
+    'seqcont_seq': {'san': 'asan'},
 }
 
 def rc(cases, size=100, scale=4, workers=None, sizes=None):
@@ -31,6 +32,44 @@ PROPS = {
         'assumptions': ['single-threaded histories; insert only of absent keys, erase only of present keys (the code asserts both)',
                         'x86-64, clang 14, ASan+UBSan reports are turned into case failures'],
     },
+}
+
+PROPS['C13'] = {
+    'runs': [{'harness': 'seqcont_seq',
+              'quick': {'rc': rc(5000, sizes=[60, 100, 200])},
+              'thorough': {'rc': rc(100000, sizes=[60, 100, 200, 400]), 'fuzz': {'seconds': 120}}}],
+    'rule': 'first tape element picks container x element type (vector, small_vector<T,4>, small_vector<T,1>, dyn_array, stack, list for '
+            'T=int and T=Tracked; intrusive_list), the rest decodes into an operation history over up to three container slots '
+            '(push/emplace/pop/resize/clear/copy- and move-construct/assign/swap/==/index write; intrusive: push/insert/erase/pop/clear/splice); '
+            'oracle: std::vector/deque reference compared after every operation (size, empty, front/back, every index, iteration, const '
+            'accessors, backward links and in_list flags). Non-trivial: the element count crossed a growth threshold and shrank again, or a '
+            'copy/move/swap/assign between two non-empty containers happened (intrusive: a splice of two non-empty lists or a mid insert and '
+            'mid erase); distinct = hash of the decoded history.',
+    'required_tags': ['kind-%d' % k for k in range(13)] + ['grew-then-shrank', 'pair-op-nonempty', 'splice-nonempty', 'sv-swap-inline-heap', 'sv-move-inline'],
+    'min_cases': {'quick': 20000, 'thorough': 400000},
+    'level_text': 'generated operation histories against std::vector/std::deque reference sequences, compared after every operation; held on everything generated',
+    'level_note': 'trusts the std containers as reference, ASan+UBSan and the exact-size tracking allocator for the own-storage clause; the state of a moved-from container is not asserted, it is only required to stay readable',
+    'technique': 'model-based property testing (rapidcheck tapes, libFuzzer on the same decoder) against std::vector/std::deque references',
+    'assumptions': ['pop/front/back/top only on non-empty containers, index < size (preconditions of the API)', 'moved-from containers: only validity is required'],
+}
+PROPS['C16'] = {
+    'runs': [{'harness': 'seqcont_seq',
+              'quick': {'rc': rc(4000, sizes=[60, 100, 200])},
+              'thorough': {'rc': rc(60000, sizes=[60, 100, 200, 400]), 'fuzz': {'seconds': 90}}},
+             {'harness': 'radix_seq',
+              'quick': {'rc': rc(2000, sizes=[60, 100])},
+              'thorough': {'rc': rc(40000, sizes=[60, 100, 200])}}],
+    'rule': 'the histories of the container, hash_map, string, holder, unique_ptr and radix-tree harnesses run with the lifetime-registering element '
+            'type Tracked and the block-registering allocator track_alloc; oracle (history invariant, evaluated at the offending call): no construction '
+            'over a live object, no read/move-from/assign/destroy of a non-live object, deallocate with the allocated size, no double/foreign free, '
+            'nothing alive or allocated after the owners are destroyed. Non-trivial: the owner released at least one element or block before its '
+            'destruction (pop/erase/remove/reset/assignment over a full owner/shrinking resize); distinct = hash of the decoded history.',
+    'required_tags': ['kind-1', 'kind-3', 'kind-5', 'kind-7', 'kind-9', 'kind-11', 'erase'],
+    'min_cases': {'quick': 20000, 'thorough': 300000},
+    'level_text': 'history invariant over generated operation sequences, decided by an address-keyed lifetime registry and a block registry; held on everything generated',
+    'level_note': 'trusts the registries (engine/track.hpp); radix-tree erase leaves destruction of the erased value to the caller (DESIGN.md C16), the harness plays that part',
+    'technique': 'stateful property testing with a lifetime-registering element type and a tracking allocator (history invariant)',
+    'assumptions': ['Tracked and track_alloc observe every constructor/destructor/allocate/free call made by the containers'],
 }
 
 NOT_APPLICABLE = {}
